@@ -936,7 +936,7 @@ impl LineBuffer {
                 if start == end {
                     None
                 } else {
-                    Some(self.buf[start..self.pos].to_owned())
+                    Some(self.buf[start..end].to_owned())
                 }
             }
             Movement::BeginningOfLine => {
